@@ -8,7 +8,7 @@
 (*  C08: try forms return null only if the lock was in use; never block        *)
 (*  C20: an exception of a queued functor is captured, nothing else is lost    *)
 EXTENDS TraceBase
-VARIABLES l, applied, callAt, retAt, thrown, hs, wwin, rwin, inop, use1, clean, pendq, cur
+VARIABLES l, applied, callAt, retAt, thrown, hs, wwin, rwin, inop, use1, clean, pendq, cur, hp
 mv == <<applied, callAt, retAt, thrown, hs, wwin, rwin, inop, use1, clean, pendq, cur>>
 MaxT == 8
 TT == 1..MaxT
@@ -26,10 +26,13 @@ Upd(v, d) == IF v < 0 \/ v >= 32768 THEN d ELSE 8 * v + d
 Fold(v, q) == IF q = <<>> THEN v ELSE Fold(Upd(v, Head(q)), Tail(q))
 TInit == /\ l = 1 /\ applied = <<>> /\ callAt = <<>> /\ retAt = <<>> /\ thrown = {} /\ hs = ZT /\ wwin = ZT /\ rwin = ZT
          /\ inop = [t \in 0..MaxT |-> ""] /\ use1 = [t \in 0..MaxT |-> FALSE] /\ clean = [t \in 0..MaxT |-> FALSE] /\ pendq = [t \in 0..MaxT |-> 0] /\ cur = ZT
-         /\ TLCSet(1, 0)
+         /\ hp = FALSE /\ TLCSet(1, 0)
 TNext ==
     /\ l <= Len(Tr)
     /\ l' = l + 1
+    \* hp: the execution ran with help=1 (a lone thread's wait for a lock held inside library code is bridged by the scheduler),
+    \* the precondition of the "blocked merely by readers" verdict
+    /\ hp' = IF Tr[l].k = "reset" THEN ("help" \in DOMAIN Tr[l].p /\ Tr[l].p.help = 1) ELSE hp
     /\ LET e == Tr[l]
            t == e.t IN
        CASE e.k = "reset" ->
@@ -62,12 +65,12 @@ TNext ==
               \* real-time / per-thread order: whatever had returned before this one was submitted is already applied
               /\ (d \in DOMAIN callAt /\ \E a \in DOMAIN retAt : retAt[a] < callAt[d] /\ a \notin SeqSet(applied) /\ a \notin thrown)
                     => Viol("C06: modifications were applied in an order that contradicts real time or the submitting thread's order")
-              /\ applied' = Append(applied, d) /\ wwin' = [wwin EXCEPT ![t] = 0]
-              /\ UNCHANGED <<callAt, retAt, thrown, hs, rwin, inop, use1, clean, pendq, cur>>
+              /\ applied' = Append(applied, d) /\ wwin' = [wwin EXCEPT ![t] = 0] /\ cur' = [cur EXCEPT ![t] = 0]
+              /\ UNCHANGED <<callAt, retAt, thrown, hs, rwin, inop, use1, clean, pendq>>
          [] e.k = "task" -> cur' = [cur EXCEPT ![t] = e.i] /\ UNCHANGED <<applied, callAt, retAt, thrown, hs, wwin, rwin, inop, use1, clean, pendq>>
          [] e.k = "throw" ->
-              /\ wwin' = [wwin EXCEPT ![t] = 0] /\ thrown' = thrown \cup {cur[t]}
-              /\ UNCHANGED <<applied, callAt, retAt, hs, rwin, inop, use1, clean, pendq, cur>>
+              /\ wwin' = [wwin EXCEPT ![t] = 0] /\ thrown' = thrown \cup {cur[t]} /\ cur' = [cur EXCEPT ![t] = 0]
+              /\ UNCHANGED <<applied, callAt, retAt, hs, rwin, inop, use1, clean, pendq>>
          [] e.k \in {"rb", "kb"} ->
               /\ (\E u \in Others(t) : wwin[u] # 0) => Viol("C02: a read overlaps a modification")
               /\ rwin' = [rwin EXCEPT ![t] = 1] /\ UNCHANGED <<applied, callAt, retAt, thrown, hs, wwin, inop, use1, clean, pendq, cur>>
@@ -88,11 +91,14 @@ TNext ==
               /\ UNCHANGED mv
          [] e.k = "starved" ->
               /\ (inop[t] \in TryOps) => Viol("C08: a try/timed shared acquisition blocks")
+              \* cur[u] # 0: u is inside a modification functor (user code under the exclusive lock): the only thing a reader may wait for
+              /\ (hp /\ inop[t] \in Readers \ TryOps /\ \A u \in Others(t) : cur[u] = 0)
+                    => Viol("C02: a shared acquisition is blocked although no modification is running (a reader blocked merely by readers)")
               /\ UNCHANGED mv
          [] e.k \in {"deadlock", "budget"} -> Viol("C06: an operation never completes (deadlock)") /\ UNCHANGED mv
          [] e.k \in {"crash", "terminate", "escaped"} -> Viol("C06: crash or escaped exception (C20)") /\ UNCHANGED mv
          [] OTHER -> UNCHANGED mv
     /\ Mark(l)
-TSpec == TInit /\ [][TNext]_<<l, mv>>
+TSpec == TInit /\ [][TNext]_<<l, mv, hp>>
 Accepted == IF TLCGet(1) = Len(Tr) THEN TRUE ELSE Rejected(TLCGet(1) + 1)
 =============================================================================
